@@ -67,12 +67,11 @@ theorem trimR_cons_ne_nil (x : UInt8) (e : Bytes) (hx : isWs x = false) : trimR 
 theorem emitCS_cons (first : Bool) (k : Bytes) (ks : List Bytes) :
     emitCS first (k :: ks) = (if first then [] else [0x2c, 0x20]) ++ k ++ emitCS false ks := rfl
 
-theorem rmOuter_exact_step (str tok : Bytes) (L : Nat) (htok : TokenOk tok) (st : RmSt) (hi : OutInv str tok L st) :
+theorem rmOuter_exact_step (str tok : Bytes) (L : Nat) (hne : tok ≠ [])
+    (htk' : ∀ x ∈ tok, x ≠ 0x20 ∧ x ≠ 0x09 ∧ x ≠ 0x2c) (st : RmSt) (hi : OutInv str tok L st) :
     (∃ s', rmOuterStep str tok st = .ok (.inl s') ∧ OutInv str tok L s' ∧ str.length - s'.s1 < str.length - st.s1) ∨
     (∃ r, rmOuterStep str tok st = .ok (.inr r) ∧ OutPost str tok L r) := by
   obtain ⟨⟨h1, h2, h3⟩, hg1, hg2⟩ := hi
-  obtain ⟨hne, htk⟩ := htok
-  have htk' : ∀ x ∈ tok, x ≠ 0x20 ∧ x ≠ 0x09 ∧ x ≠ 0x2c := fun x hx => (htk x hx).2
   have hlw : (st.out.take st.w).length = st.w := take_len _ _ (by omega)
   unfold rmOuterStep
   by_cases hlt : st.s1 < str.length
@@ -148,7 +147,7 @@ theorem rmOuter_exact_step (str tok : Bytes) (L : Nat) (htok : TokenOk tok) (st 
           by_cases hE : (headElem (str.drop (cur + k + ((r1.drop k).takeWhile isWs).length))).isEmpty = true
           · simp only [hE, if_true, pure_eq_ok]
             have hEn : headElem (str.drop (cur + k + ((r1.drop k).takeWhile isWs).length)) = [] := List.isEmpty_iff.mp hE
-            refine ⟨_, _, rfl, Or.inl ⟨rfl, ?_, by omega, hjl, hm.1, hjd, hEn⟩⟩
+            refine ⟨_, _, rfl, Or.inl ⟨rfl, ?_, by omega, hjl, (by first | exact hm.1 | trivial), hjd, hEn⟩⟩
             rw [hiff]; refine ⟨hm.1, ?_⟩
             rw [← hm.1, ← hjd]; exact hEn
           · simp only [hE, if_false, pure_eq_ok, Bool.false_eq_true]
@@ -260,12 +259,12 @@ theorem rmOuter_exact_step (str tok : Bytes) (L : Nat) (htok : TokenOk tok) (st 
           by_cases hw0 : st.w = 0
           · simp only [hw0, if_true, decide_true]
             by_cases hsz : st.out.length < k
-            · right; simp only [hsz, if_true, pure_eq_ok]; exact ⟨rfl, by omega⟩
+            · right; simp only [hsz, if_true, pure_eq_ok]; exact ⟨(by first | rfl | trivial), by omega⟩
             · left; simp only [hsz, if_false, pure_eq_ok]
               exact ⟨_, _, rfl, by omega, h3, by simp, by simp⟩
           · simp only [hw0, if_false, decide_false, Bool.false_eq_true]
             by_cases hsz : st.out.length < st.w + k + 2
-            · right; simp only [hsz, if_true, pure_eq_ok]; exact ⟨rfl, by omega⟩
+            · right; simp only [hsz, if_true, pure_eq_ok]; exact ⟨(by first | rfl | trivial), by omega⟩
             · left
               have hw1 : st.w < st.out.length := by omega
               have hw2 : st.w + 1 < (st.out.set st.w 0x2c).length := by simp; omega
@@ -348,29 +347,56 @@ theorem rmOuter_exact_step (str tok : Bytes) (L : Nat) (htok : TokenOk tok) (st 
     · simpa [emitCS] using hg1
     · simpa using hg2.symm
 
+/-- the precondition `MHD_str_remove_token_caseless_` documents for its token (the `mhd_assert`s
+    on entry), without the "no NUL" part, which the function does not need: non-empty, no
+    space, tab or comma -/
+def tokenLegal (tok : Bytes) : Bool := !tok.isEmpty && tok.all (fun x => x != 0x20 && x != 0x09 && x != 0x2c)
+
+theorem tokenLegal_iff (tok : Bytes) :
+    tokenLegal tok = true ↔ (tok ≠ [] ∧ ∀ x ∈ tok, x ≠ 0x20 ∧ x ≠ 0x09 ∧ x ≠ 0x2c) := by
+  unfold tokenLegal
+  cases tok with
+  | nil => simp
+  | cons a t => simp [and_assoc]
+
+theorem tokenLegal_of_TokenOk (tok : Bytes) (h : TokenOk tok) : tokenLegal tok = true :=
+  (tokenLegal_iff tok).mpr ⟨h.1, fun x hx => (h.2 x hx).2⟩
+
+/-- the `SSIZE_MAX <= (str_len / 2) * 3 + 3` refusal does not wrap for any object size -/
+theorem rm_refuse_nowrap (n : Nat) (h : n ≤ Mhd.Gen.Str.ssizeMax) : (n / 2 * 3 + 3) % 2 ^ 64 = n / 2 * 3 + 3 := by
+  apply Nat.mod_eq_of_lt
+  simp only [Mhd.Gen.Str.ssizeMax] at h
+  omega
+
 /-- `MHD_str_remove_token_caseless_ (str, str_len, token, token_len, buf, &buf_size)` for every
     input string, every permitted token and every buffer:
-    * if the reference output `removeTokenOut str tok` — the elements of `tokensOf str`
+    * a string so long that the `ssize_t` result could overflow (`SSIZE_MAX <= str_len / 2 * 3 + 3`)
+      is refused: false, `*buf_size = -1`;
+    * otherwise, if the reference output `removeTokenOut str tok` — the elements of `tokensOf str`
       that are non-empty and not caselessly equal to the token, each with its inner runs of
       spaces/tabs collapsed to one space, joined with ", " — fits into the buffer, the call
       returns `hasTokenSpec str tok` (⇔ the token is an element), sets `*buf_size` to the exact
       length and the buffer starts with that output;
     * otherwise it returns false with `*buf_size = -1`;
-    in both cases without reading or writing out of bounds, and the buffer keeps its size. -/
-theorem removeTokenCaseless_spec (str tok out : Bytes) (htok : TokenOk tok) (hlen : str.length < 2 ^ 62) :
+    in every case without reading or writing out of bounds, and the buffer keeps its size.
+    `str.length ≤ SSIZE_MAX` holds for every C object (it keeps `str_len / 2 * 3 + 3` from
+    wrapping in `size_t`). -/
+theorem removeTokenCaseless_spec (str tok out : Bytes) (htok : tokenLegal tok = true)
+    (hlen : str.length ≤ Mhd.Gen.Str.ssizeMax) :
     ∃ o, o.length = out.length ∧
-      if (removeTokenOut str tok).length ≤ out.length then
+      if Mhd.Gen.Str.ssizeMax ≤ str.length / 2 * 3 + 3 then removeTokenCaseless str tok out = .ok (false, -1, o)
+      else if (removeTokenOut str tok).length ≤ out.length then
         removeTokenCaseless str tok out = .ok (hasTokenSpec str tok, ((removeTokenOut str tok).length : Int), o) ∧
         o.take (removeTokenOut str tok).length = removeTokenOut str tok
       else removeTokenCaseless str tok out = .ok (false, -1, o) := by
+  obtain ⟨hne, htk'⟩ := (tokenLegal_iff tok).mp htok
   unfold removeTokenCaseless
-  have hbig : ¬ Mhd.Gen.Str.ssizeMax ≤ ((str.length / 2) * 3 + 3) % 2 ^ 64 := by
-    have : (str.length / 2) * 3 + 3 < 2 ^ 64 := by omega
-    rw [Nat.mod_eq_of_lt this]
-    simp only [Mhd.Gen.Str.ssizeMax]; omega
-  simp only [hbig, if_false, bind_ok']
+  rw [rm_refuse_nowrap _ hlen]
+  by_cases hbig : Mhd.Gen.Str.ssizeMax ≤ str.length / 2 * 3 + 3
+  · exact ⟨out, rfl, by simp only [hbig, if_true, pure_eq_ok]⟩
+  simp only [hbig, if_false]
   obtain ⟨r, hr, hp⟩ := iter_spec (rmOuterStep str tok) (OutInv str tok out.length) (fun st => str.length - st.s1)
-    (OutPost str tok out.length) (rmOuter_exact_step str tok out.length htok) (str.length + 1) ⟨0, 0, out, false⟩
+    (OutPost str tok out.length) (rmOuter_exact_step str tok out.length hne htk') (str.length + 1) ⟨0, 0, out, false⟩
     ⟨⟨by simp, by simp, rfl⟩, by simp [removeTokenOut_eq, joinWith_eq_emit], by simp [anyTok]⟩ (by simp)
   simp only [hr, bind_ok']
   cases r with
